@@ -392,6 +392,75 @@ int main(int argc, char** argv) {
             check_primes(n);
         }
     }
+    //---- the long prime gaps below 2^32 (every maximal gap and every gap above 292): nextprime inside a long composite run
+    {
+        struct G
+        {
+            uint32_t p;
+            int gap;
+        };
+        const std::vector<G> gaps = {{1349533, 118},     {1357201, 132},     {2010733, 148},     {4652353, 154},     {17051707, 180},    {20831323, 210},    {47326693, 220},
+                                     {122164747, 222},   {189695659, 234},   {191912783, 248},   {387096133, 250},   {436273009, 282},   {1294268491, 288},  {1453168141, 292},
+                                     {2300942549u, 320}, {2433630109u, 300}, {3842610773u, 336}, {3917587237u, 300}, {4024713661u, 300}, {4275912661u, 300}};
+        for (const auto& g : gaps) {
+            if (!vh::mine(idx++)) {
+                continue;
+            }
+            //the table is only a list of places to look: every answer is judged by the Miller-Rabin reference
+            for (int64_t n = int64_t(g.p) - 2; n <= int64_t(g.p) + g.gap + 2 && n <= 4294967295LL; ++n) {
+                check_nextprime(uint64_t(n));
+                check_isprime(uint64_t(n));
+            }
+            vh::obs_add("long_prime_gaps_walked");
+        }
+    }
+    //---- thorough: isprime for EVERY argument in [2^22, 2^24) against a segmented sieve (a defect confined to a single argument cannot
+    //be sampled; the whole 32-bit range is out of reach: one call costs a fresh prime table, ~1e5 calls/s/core near 2^32);
+    //nextprime at the start of every gap of 150 or more
+    if (thorough) {
+        const uint64_t SEG = 1u << 18;
+        for (uint64_t base = (1u << 22); base < (1ULL << 24); base += SEG) {
+            if (!vh::mine(idx++)) {
+                continue;
+            }
+            std::vector<uint8_t> seg(SEG, 1);
+            for (uint32_t p : g_primes) {
+                if (uint64_t(p) * p >= base + SEG) {
+                    break;
+                }
+                uint64_t q = std::max<uint64_t>(uint64_t(p) * p, (base + p - 1) / p * p);
+                for (; q < base + SEG; q += p) {
+                    seg[q - base] = 0;
+                }
+            }
+            uint64_t wrong = 0;
+            uint64_t first_wrong = 0;
+            uint64_t last_prime = 0;
+            for (uint64_t n = base; n < base + SEG; ++n) {
+                const bool want = seg[n - base] != 0;
+                const bool got = dl::isprime(uint32_t(n));
+                if (got != want) {
+                    if (!wrong) {
+                        first_wrong = n;
+                    }
+                    ++wrong;
+                }
+                if (want) {
+                    if (last_prime && n - last_prime >= 150) {
+                        check_nextprime(last_prime + 1);
+                    }
+                    last_prime = n;
+                }
+            }
+            vh::count(0xE0000000ULL + base / SEG, true);
+            vh::obs_add("exhaustive_isprime_arguments", double(SEG));
+            if (wrong) {
+                vh::violation(vh::fmt("C15/isprime/wrong/%s", rng_class(first_wrong)),
+                              vh::fmt("isprime(%llu) = %d but the segmented sieve says %d (%llu wrong answers in [%llu, %llu))", (unsigned long long)first_wrong, int(!seg[first_wrong - base]), int(seg[first_wrong - base]),
+                                      (unsigned long long)wrong, (unsigned long long)base, (unsigned long long)(base + SEG)));
+            }
+        }
+    }
     //---- call histories: the answers must not depend on what was asked before in the same thread (repeated, decreasing and
     //interleaved arguments; a result cached from a larger argument must not leak into a smaller one)
     {
